@@ -19,7 +19,7 @@ from vmon.util import Mon
 from vmon.ref import sampler_ref as sr
 
 ID = 'C35'
-RULE = ('per case 12 (thorough: 50) sampler workloads from the sampler menu (small, medium and large supercells; vacancy or not; jump network + '
+RULE = ('per case 12 (thorough: 150) sampler workloads from the sampler menu (small, medium and large supercells; vacancy or not; jump network + '
         'TS clusters or not; spectators) x random values; each gets a random history of 120 events (start / trial / swap / '
         'transitions / copy / MCmoves batches of 1..40 moves with kT in {0.05,1,20} incl. kT*log(u)=0 entries) and small cells '
         '(<= 6 mobile sites) a bounded-exhaustive history (every occupation x every swap and back); identical case lists for the '
@@ -62,7 +62,7 @@ def cases(tier, seed):
         for mode in ('boundscheck', 'compiled', 'interpreted'):
             for i in range(ncase):
                 out.append({'seed': seed, 'idx': i + 100 * hseeds.index(hs), 'hashseed': hs, 'mode': mode, 'env': MODES[mode],
-                            'nwork': 12 if tier == 'quick' else 50, 'length': 120 if tier == 'quick' else 200})
+                            'nwork': 12 if tier == 'quick' else 150, 'length': 120 if tier == 'quick' else 200})
     return out
 
 
